@@ -20,6 +20,8 @@ class Ctx:
         self._locks = None
         self._og = {}
         self._pf = None
+        from . import sql
+        sql.CTX = self
 
     @property
     def locks(self):
